@@ -100,6 +100,13 @@ Definition update (d : astdiff) (old : ast) : ast :=
   | Nop => old
   end.
 
+Fixpoint ast_eqb (a b : ast) : bool :=
+  match a, b with
+  | [], [] => true
+  | x :: a', y :: b' => (x =? y) && ast_eqb a' b'
+  | _, _ => false
+  end.
+
 Definition hchunk := Z.
 Definition hir := list hchunk.
 
@@ -111,8 +118,8 @@ Inductive hirdiff : Type :=
 | HNop.
 
 (** the outcome of [lowerer.lower_and_resolve_chunk(expr, None)]: Ok(e) and Err((Some(e), _)) give [LSome e],
-    Err((None, _)) gives [LNone]; the checker can also panic on a chunk (known finding C29-quick-check-panics:
-    `... has qvar` while lowering one chunk in the context an earlier analysis left) *)
+    Err((None, _)) gives [LNone]; the checker can also panic on a chunk (observed: `... has qvar` while lowering a
+    chunk in a context that did not fit it, corpus/C29/w3) *)
 Inductive lowered : Type :=
 | LSome (h : hchunk)
 | LNone
@@ -215,6 +222,7 @@ Section Lowering.
         | Panic => Panic
         | Ok d =>
           if is_nop d then Ok s
+          else if negb (ast_eqb (update d old) new) then Ok s   (* more than one chunk changed: caches left alone *)
           else
             (* steal_lowerer succeeds: the entry exists *)
             match hirdiff_new d with
@@ -246,7 +254,7 @@ Section Lowering.
   Inductive change_kind_t : Type := CkNew | CkNoChange | CkValid | CkInvalid.
 
   (** change_kind(uri).  [textcmp = true] is the code as it is now; [textcmp = false] is the code before the
-      repair "fix: didSave skipped the re-check ..." (the NoChange decision looked at the cached AST only) *)
+      repair 76b263bd "fix: didSave skipped the re-check ..." (the NoChange decision looked at the cached AST only) *)
   Definition change_kind (textcmp : bool) (s : fstate) (dp : deps) : res change_kind_t :=
     match dp with
     | DepsEmpty => Ok CkNew
